@@ -9,7 +9,9 @@ THEOREMS = ["C13_push_returns_own_value", "C13_push_index_fresh", "C13_pushes_ke
             "C13_push_mut_releases_earlier", "C13_drop_releases_all", "C13_concurrent_pushes",
             "C13_concurrent_append_only", "C13_nonvacuous"]
 
-RULE = ("(sequential) sessions on an original, its clone and a clone of the clone: random sequences of make_ref / make_mut with three value types "
+RULE = ("(sequential) sessions on an original, its clone and a clone of the clone: random sequences of make_ref / make_mut / lending through the "
+        "instance's delegation helper (a `&self` provided method whose body calls a required method answered with make_ref) / `&mut self` provided "
+        "calls (AsMut path), each instance finally dropped normally or while its thread unwinds from a panic, with three value types "
         "(two same-layout counted types and a zero-sized guard whose Drop is counted), lengths up to 40 (thorough: one run of 5000 values as a smoke "
         "test of the iterative drop); after EVERY step the harness re-reads the contents through ALL references it still holds and prints the number "
         "of live lent values; instances are dropped at the end, clones first. (concurrent) 2-8 threads lend values through one shared &Unimock under "
@@ -28,14 +30,18 @@ def seq_case(rng, maxlen):
             r = rng.random()
             ty = rng.choice([0, 0, 1, 2])
             v = 0 if ty == 2 else rng.randrange(1000)
-            if r < 0.78:
+            if r < 0.6:
                 ops.append(("r", ty, v))
-            elif r < 0.92:
+            elif r < 0.76:
+                ops.append(("h", min(ty, 1), v))
+            elif r < 0.87:
                 ops.append(("m", ty, v))
+            elif r < 0.93:
+                ops.append(("t",))
             else:
                 ops.append(("l",))
         sessions.append(ops)
-    return {"kind": "seq", "sessions": sessions}
+    return {"kind": "seq", "sessions": sessions, "unwind": [rng.random() < 0.3 for _ in sessions]}
 
 
 def thread_case(rng, nth, per, sched=None):
@@ -53,7 +59,10 @@ def harness_line(c, cid):
     if c["kind"] == "seq":
         parts = [f"case {cid} SEQ {len(c['sessions'])}"]
         for k, ops in enumerate(c["sessions"]):
-            parts.append(("o" if k == 0 else "c") + f" {len(ops)} " + " ".join(":".join(str(x) for x in o) for o in ops))
+            kind = "o" if k == 0 else "c"
+            if (c.get("unwind") or [False] * len(c["sessions"]))[k]:
+                kind = kind.upper()
+            parts.append(kind + f" {len(ops)} " + " ".join(":".join(str(x) for x in o) for o in ops))
         return " ".join(parts)
     return " ".join([f"case {cid} TH {len(c['vals'])}"] + [f"{len(v)} " + " ".join(map(str, v)) for v in c["vals"]]
                     + [f"S {len(c['sched'])}"] + [str(x) for x in c["sched"]])
@@ -62,7 +71,9 @@ def harness_line(c, cid):
 def coq_case(c):
     if c["kind"] == "seq":
         def op(o):
-            return "CLive" if o[0] == "l" else f"{'CRef' if o[0] == 'r' else 'CMut'} {o[1]} {o[2]}"
+            if o[0] == "l": return "CLive"
+            if o[0] == "t": return "CTouch"
+            return f"{ {'r': 'CRef', 'm': 'CMut', 'h': 'CHelp'}[o[0]] } {o[1]} {o[2]}"
         return "ChSeq [" + "; ".join("[" + "; ".join(op(o) for o in ops) + "]" for ops in c["sessions"]) + "]"
     return ("ChThreads [" + "; ".join("[" + "; ".join(map(str, v)) + "]" for v in c["vals"]) + "] ["
             + "; ".join(map(str, c["sched"])) + "]")
